@@ -5,7 +5,9 @@ TRUSTED_ALLOW = {
     # le.rs: little-endian shims (assumed std semantics of {to,from}_le_bytes), included by every unit
     '*': {'external_body:shim_u16_to_le_bytes', 'external_body:shim_u32_to_le_bytes', 'external_body:shim_u64_to_le_bytes',
           'external_body:shim_u16_from_le_bytes', 'external_body:shim_u64_from_le_bytes', 'external_body:shim_le_u16',
-          'external_body:shim_le_u32', 'external_body:shim_le_u64'},
+          'external_body:shim_le_u32', 'external_body:shim_le_u64', 'external_body:to_le_bytes_shim', 'external_body:shim_u32_from_le_bytes',
+          'external_body:axiom_float_le_roundtrip', 'external_body:shim_f32_from_le_bytes', 'external_body:shim_f64_from_le_bytes',
+          'external_body:shim_u128_from_le_bytes'},
     'bits': {
         'external_body:vec_drain_prefix', 'external_body:vec_drain_all', 'external_body:shim_u128_from_le_bytes',
         'external_body:shim_u64_to_le_bytes', 'external_body:shim_u32_to_le_bytes', 'external_body:shim_i128_ilog2',
@@ -26,7 +28,7 @@ PROPS = {
     'C12': {
         'level': 'proof',
         'verus': ['bits'],
-        'kani': ['bits_k'],
+        'kani': ['bits_k', 'bsr_k'],
         'claim': ('Contracts on the real bodies of ByteStreamWriteBuffer::{new,add_bytes,add_bits,get_full_bytes,get_all_bytes,'
                   'full_bytes,all_bytes}, integer_bits, serialize_integer, RecordDataType::{bit_size,write}, '
                   'ByteStreamReadBuffer::{new,append,extract,available}, BitPack::unpack_{ints,scaled_ints,singles,doubles}: '
@@ -120,6 +122,7 @@ _RD_ASSUME = [
 PROPS['C03'] = {
     'level': 'proof',
     'verus': ['bits', 'rd'],
+    'kani': ['bsr_k'],
     'claim': ('Reader side on every legal packetisation, by contracts on the real bodies: PacketHeader/Index/Data/Ignored header parsers and '
               'CompressedVectorSectionHeader::read consume exactly 16/6/4/32 bytes and return kind, length field + 1 and stream count of the logical '
               'stream; QueueReader::advance skips index and ignored packets by exactly their declared length, consumes header + n sizes + the '
@@ -154,7 +157,7 @@ PROPS['C09'] = {
 PROPS['C08'] = {
     'level': 'proof',
     'verus': ['bits', 'page_r', 'rd_top', 'rd'],
-    'kani': ['norm_k'],
+    'kani': ['norm_k', 'bsr_k'],
     'claim': ('Absence of panics (arithmetic overflow, index/slice bounds, unwrap, clamp, ilog2, division) as implicit obligations of every reader-side '
               'function under contract, with NO precondition on file content (only structural well-formedness of self): PagedReader::{new,seek_physical,'
               'read_page,read,align} + restated read_exact, E57Reader::{validate_crc,raw_xml,get_u64,extract_xml}, CompressedVectorSectionHeader::read, '
